@@ -377,10 +377,40 @@ def r5_no_transformation_after_uniqueness(ctx, rep):
            "interface takes the interface's ident, so they share one anchor id and one URL", py.nloc(ip))
 
 
+
+def r6_ident_not_a_key(ctx, rep):
+    """`ident` is unique only within one output directory (get_dir()): a type and a generic interface of the same name
+    share it. It must not be used on its own as the key of a mapping / membership test that identifies entities."""
+    py = ctx.py
+    n = 0
+    for mod, fn in py.all_functions():
+        if py.qualname(fn).startswith("sourceform.NameSelector"):
+            continue
+        for x in ast.walk(fn):
+            key = None
+            if isinstance(x, ast.Subscript) and isinstance(x.slice, ast.Attribute) and x.slice.attr == "ident":
+                key = x.slice
+            elif isinstance(x, ast.Compare) and len(x.ops) == 1 and isinstance(x.ops[0], (ast.In, ast.NotIn)) and \
+                    isinstance(x.left, ast.Attribute) and x.left.attr == "ident":
+                key = x.left
+            elif isinstance(x, ast.Call) and isinstance(x.func, ast.Attribute) and x.func.attr in ("get", "setdefault", "pop") and x.args \
+                    and isinstance(x.args[0], ast.Attribute) and x.args[0].attr == "ident":
+                key = x.args[0]
+            if key is None or py.enclosing_function(x) is not fn:
+                continue
+            n += 1
+            rep.ob(f"{py.qualname(fn)}: `{ast.unparse(x)[:50]}` keyed by ident alone", False,
+                   f"`{ast.unparse(key)}` identifies an entity only together with its directory (get_dir()): a derived type and "
+                   f"the generic interface that serves as its constructor have the same ident, so one replaces the other in this "
+                   f"mapping", py.nloc(x))
+    rep.ob("no mapping is keyed by ident alone", n == 0, "ident is only used inside NameSelector, in file names and in "
+           "'<dir>~<ident>' node ids" if n == 0 else f"{n} site(s)", "ford/", nontrivial=False)
+
 RULES = [
     RuleSpec("C10.R5", r5_no_transformation_after_uniqueness, "no lossy transformation after the identifier was made unique", floor=2),
     RuleSpec("C10.R1", r1_counter_key, "collision key at least as coarse as the stem; injective symbol table", floor=2),
     RuleSpec("C10.R2", r2_write_targets_use_ident, "per-entity write targets use ident", floor=2),
     RuleSpec("C10.R3", r3_anchor_and_registry, "anchor quoting, single registry, memoisation", floor=2),
     RuleSpec("C10.R4", r4_dir_ident_overrides, "get_dir and ident overrides agree", floor=1),
+    RuleSpec("C10.R6", r6_ident_not_a_key, "ident is not used alone as an identity key", floor=1),
 ]
